@@ -55,10 +55,11 @@ JudgeWqP(e) ==
        THEN "P:wq-scale"
   ELSE "ok"
 JudgeWqM(e) ==
-  IF ~WqInDomain(e) \/ e.res # "val" \/ ~e.exact THEN ""
-  ELSE IF ~WQFound(T.xs, WqW(e), e.a, e.A) THEN "M:wq-scan-finds"
-  ELSE IF e.q # WQScan(T.xs, WqW(e), e.a, e.A) THEN "M:wq-scan"
-  ELSE ""
+  IF ~e.exact \/ e.res # "val" \/ ~WqInDomain(e) THEN ""
+  ELSE LET i == WQScanIdx(T.xs, WqW(e), e.a, e.A)        \* 0 = the scan finds no index
+       IN IF i = 0 THEN "M:wq-scan-finds"
+          ELSE IF e.q # T.xs[i] THEN "M:wq-scan"         \* T.xs[i] = WQScan(T.xs, WqW(e), e.a, e.A)
+          ELSE ""
 
 \* ---- (c) weighted variance ---------------------------------------------------------------
 SW(e) == IF e.wnone THEN [i \in 1..Len(T.cols[1]) |-> 1]
